@@ -93,9 +93,16 @@ func genCase(t *rapid.T) Case {
 
 // libHash returns the library digest, or nil with the reason.
 func libHash(img []byte) ([]byte, error) {
-	p, err := authenticode.Parse(bytes.NewReader(img))
+	// the image is handed over behind one of several io.ReaderAt implementations (chosen by the image's bytes)
+	variant := len(img)
+	for _, b := range img[len(img)/2:][:min(16, len(img)-len(img)/2)] {
+		variant += int(b)
+	}
+	r, kind := hx.ReaderAtFor(img, variant)
+	hx.Class("reader/" + kind)
+	p, err := authenticode.Parse(r)
 	if err != nil {
-		return nil, fmt.Errorf("Parse: %v", err)
+		return nil, fmt.Errorf("Parse (%s): %v", kind, err)
 	}
 	d := p.Hash(crypto.SHA256)
 	if d == nil {
